@@ -655,11 +655,24 @@ def check_service(case):
       raw = list(s.ListTrials(vsp.ListTrialsRequest(parent=st_.name)).trials)
       want, elig, why, required, goals = _service_expected(cfg, raw, TS)
       try:
-        got = [t.id for t in study.optimal_trials().get()]
+        got_trials = list(study.optimal_trials().get())
+        got = [t.id for t in got_trials]
       except Exception as e:  # pylint: disable=broad-except
         out.violate('service/exception:%s' % type(e).__name__,
                     'step %s: %s' % (step, str(e)[:300]))
         return False
+      by_id = dict((int(t.id), t) for t in raw)
+      for t in got_trials:
+        if t.id in by_id:
+          a = sorted((m.metric_id, repr(m.value))
+                     for m in by_id[t.id].final_measurement.metrics)
+          fm = t.final_measurement
+          b = sorted((k, repr(v.value)) for k, v in fm.metrics.items()) \
+              if fm is not None else None
+          if a != b:
+            out.violate('service/reported_trial_differs',
+                        'step %s trial %d listed=%r reported=%r' % (
+                            step, t.id, a, b))
       listed = set(int(t.id) for t in raw)
       if len(set(got)) != len(got):
         out.violate('service/duplicate_reported', 'step %s got=%r' % (step, got))
@@ -932,6 +945,17 @@ def check_inram(case):
         out.violate('%s/extra_dominated/%s' % (base, ctx), d2)
       if len([i for i in got if i in opt]) != want_len:
         out.violate('%s/wrong_length/%s' % (base, ctx), d2)
+  # the query must not change the study: trials keep what was reported
+  for t, (kind, m) in zip(sup.trials, case['trials']):
+    fm = t.final_measurement
+    now = sorted((k, repr(v.value)) for k, v in fm.metrics.items()) \
+        if fm is not None else None
+    was = sorted((k, repr(float(v))) for k, v in m.items()) \
+        if kind in ('c', 'c_partial', 'i') else None
+    if now != was:
+      out.violate('inram/study_trial_modified_by_query',
+                  'trial %d was=%r now=%r %s' % (t.id, was, now, desc))
+      break
   s_ = ref.structure(vecs) if vecs else None
   out.nontrivial = bool(s_ and s_['nontrivial'])
   if s_ and s_['tie_opt_nonopt']:
